@@ -365,14 +365,37 @@ func definitelyNonNilErr(v ssa.Value, blk *ssa.BasicBlock, seen map[ssa.Value]bo
 		return true
 	case *ssa.Call:
 		n := calleeFull(x)
-		if strings.Contains(n, "errors.") || strings.HasSuffix(n, ".Errorf") || strings.Contains(n, "sdkerrors.") {
+		m := calleeMethod(x)
+		// Wrap-style helpers return nil when the wrapped error is nil
+		if (strings.Contains(n, "errors.") || strings.Contains(n, "sdkerrors.")) && (strings.HasPrefix(m, "Wrap") || strings.HasPrefix(m, "WithMessage") || m == "WithStack") {
+			if len(x.Call.Args) > 0 {
+				return definitelyNonNilErr(x.Call.Args[0], x.Block(), seen)
+			}
+			return false
+		}
+		if strings.Contains(n, "errors.") || strings.HasSuffix(n, ".Errorf") || strings.Contains(n, "sdkerrors.") || strings.HasSuffix(n, "status.Error") || strings.HasSuffix(n, "status.Errorf") {
 			return true
 		}
 	}
-	// dominated by "v != nil"?
+	// dominated by "v != nil"? (two loads of the same variable without an intervening store are the same value)
 	for _, a := range factsAt(blk) {
-		if a.Op == "neq" && ((a.X == v && isNilConst(a.Y)) || (a.Y == v && isNilConst(a.X))) {
+		if a.Op != "neq" {
+			continue
+		}
+		x, y := a.X, a.Y
+		if isNilConst(x) {
+			x, y = y, x
+		}
+		if !isNilConst(y) {
+			continue
+		}
+		if x == v {
 			return true
+		}
+		if lx, ok := x.(*ssa.UnOp); ok {
+			if lv, ok := v.(*ssa.UnOp); ok && lx.Op == token.MUL && lv.Op == token.MUL && lx.X == lv.X && noStoreBetween(lx, lv) {
+				return true
+			}
 		}
 	}
 	return false
@@ -670,6 +693,9 @@ func (s *symCtx) expr(v ssa.Value, d int) string {
 	case *ssa.BinOp:
 		return "(" + s.expr(x.X, d+1) + " " + x.Op.String() + " " + s.expr(x.Y, d+1) + ")"
 	case *ssa.Alloc:
+		if lit := s.litFields(x, d); lit != "" {
+			return "&" + lit
+		}
 		return "&" + s.allocName(x, d)
 	case *ssa.Phi:
 		if s.seen[x] {
@@ -995,21 +1021,37 @@ func (s *symCtx) litFields(a *ssa.Alloc, d int) string {
 		return ""
 	}
 	var parts []string
-	for _, r := range *a.Referrers() {
-		switch x := r.(type) {
-		case *ssa.Store:
-			if x.Addr == ssa.Value(a) {
-				return ""
-			}
-		case *ssa.FieldAddr:
-			for _, rr := range *x.Referrers() {
-				if st, ok := rr.(*ssa.Store); ok && st.Addr == ssa.Value(x) {
+	whole := false
+	var collect func(prefix string, addr ssa.Value)
+	collect = func(prefix string, addr ssa.Value) {
+		refs := addr.Referrers()
+		if refs == nil {
+			return
+		}
+		for _, r := range *refs {
+			switch x := r.(type) {
+			case *ssa.Store:
+				if x.Addr == addr {
+					if prefix == "" {
+						whole = true
+						return
+					}
 					s.seen[a] = true
-					parts = append(parts, fieldName(x.X.Type(), x.Field)+": "+s.expr(st.Val, d+2))
+					parts = append(parts, prefix+": "+s.expr(x.Val, d+2))
 					delete(s.seen, a)
 				}
+			case *ssa.FieldAddr:
+				p := fieldName(x.X.Type(), x.Field)
+				if prefix != "" {
+					p = prefix + "." + p
+				}
+				collect(p, x)
 			}
 		}
+	}
+	collect("", a)
+	if whole {
+		return ""
 	}
 	if len(parts) == 0 {
 		return ""
@@ -1099,4 +1141,50 @@ func (s *symCtx) sliceLitElems(a *ssa.Alloc, d int) []string {
 		}
 	}
 	return out
+}
+
+// noStoreBetween: no store to the loaded address between two loads in straight-line dominance (conservative:
+// the later load's block is dominated by the earlier one's and no Store to that address exists in the blocks on
+// the dominator path between them).
+func noStoreBetween(a, b *ssa.UnOp) bool {
+	if !a.Block().Dominates(b.Block()) {
+		return false
+	}
+	fn := a.Parent()
+	for _, blk := range fn.Blocks {
+		if !(a.Block().Dominates(blk) && (blk == b.Block() || blockReachesB(blk, b.Block()))) {
+			continue
+		}
+		for _, in := range blk.Instrs {
+			if st, ok := in.(*ssa.Store); ok && st.Addr == a.X {
+				// a store located after a and before b on some path
+				if blk == a.Block() && !instrDominates(a, st) {
+					continue
+				}
+				if blk == b.Block() && !instrDominates(st, b) {
+					continue
+				}
+				return false
+			}
+		}
+	}
+	return true
+}
+
+func blockReachesB(from, to *ssa.BasicBlock) bool {
+	seen := map[*ssa.BasicBlock]bool{}
+	stack := append([]*ssa.BasicBlock{}, from.Succs...)
+	for len(stack) > 0 {
+		x := stack[len(stack)-1]
+		stack = stack[:len(stack)-1]
+		if seen[x] {
+			continue
+		}
+		seen[x] = true
+		if x == to {
+			return true
+		}
+		stack = append(stack, x.Succs...)
+	}
+	return false
 }
